@@ -272,6 +272,6 @@ theorem union_row_complete {p fs types offs cur} {i : Nat} {pc : B → R B} {ufs
   · simp only [room]
     have h1 := roomL_set fs i c c' m cost hget hroom
     have h2 := curRoom_set cur i _ hcur
-    omega
+    exact min_le_min_max h1 h2
 
 end SaModel.Build
